@@ -302,7 +302,7 @@ func checkJSONDocAt(doc string, subset bool, pre int, disk bool, st *Stats) (err
 				err = fmt.Errorf("the JSON example panicked: %v", r)
 			}
 		}()
-		f := text.NewFile("f", []byte(doc))
+		f := newFileOwned("f", []byte(doc))
 		if disk {
 			var derr error
 			if f, _, derr = fileViaDisk([]byte(doc)); derr != nil {
